@@ -39,6 +39,10 @@ func scenario(p params, r *lib.RNG) *ts.Scenario {
 			switch {
 			case r.Bool():
 				sc.Acts = append(sc.Acts, ts.Act{Do: "fault", Tid: 1, At: r.Intn(9), Kind: lib.Pick(r, kinds)})
+			case p.real && r.Bool():
+				// a lagging backend behind a load balancer: the head query saw the full chain,
+				// the data requests reach a node that is 1-3 blocks behind
+				sc.Acts = append(sc.Acts, ts.Act{Do: "xlag", K: r.Range(1, 3), Len: r.Range(1, 3)})
 			case p.real:
 				sc.Acts = append(sc.Acts, ts.Act{Do: "xfail", K: r.Intn(5)})
 			default:
@@ -89,6 +93,14 @@ func run(cfg lib.Cfg) error {
 	for _, bc := range [][2]int{{1, 4}, {2, 3}, {3, 8}, {1, 2}} {
 		p := params{name: fmt.Sprintf("corpus-batch%d-conc%d", bc[0], bc[1]), shape: "log", batch: bc[0], conc: bc[1], start: 1, head: 5, seed: 11}
 		judge(scenario(p, r.Fork()), "corpus-batch-lt-conc")
+	}
+	// corpus: a backend that is behind the one that answered the head query
+	// (logs-only plan: the toBlock header request is the only protection)
+	for _, lag := range []int{2, 6} {
+		p := params{name: fmt.Sprintf("corpus-lagging-backend-%d", lag), shape: "lognh", batch: 4, conc: 1, start: 1, head: 8, seed: 12, real: true}
+		sc := scenario(p, r.Fork())
+		sc.Acts = append([]ts.Act{{Do: "xlag", K: 2, Len: lag}}, sc.Acts...)
+		judge(sc, "corpus-lagging-backend")
 	}
 	shapes := []string{"log", "lognh", "tx", "trace"}
 	// every batch x conc pair on one fixed chain (thorough: all 96; quick: a seeded third)
